@@ -116,19 +116,24 @@ Definition named (i : import) : bool := negb (is_empty (i_alias i)).
 
 (* setImports collects the aliased imports in a map keyed by (path, alias) (commit 5f65f03: one package
    may be imported under several aliases): writing the same pair twice is one import.  The bare-tag
-   imports are appended to a slice, one entry per occurrence. *)
+   imports are appended to a slice unless the path is already there (commit 4a102aa; before it, one
+   entry per occurrence: [root_imports_before_4a102aa]). *)
 Definition same_import (a b : import) : bool :=
   String.eqb (i_path a) (i_path b) && String.eqb (i_alias a) (i_alias b).
 Definition dedup_imports (l : list import) : list import :=
   fold_left (fun acc x => if existsb (same_import x) acc then acc else acc ++ [x]) l [].
 Definition named_imports (pk : pkg) : list import := dedup_imports (filter named (imports pk)).
-Definition root_imports (pk : pkg) : list import := filter (fun i => negb (named i)) (imports pk).
+Definition root_imports_before_4a102aa (pk : pkg) : list import := filter (fun i => negb (named i)) (imports pk).
+(* all of them have the alias "": [same_import] compares the paths; the first occurrence stays *)
+Definition root_imports (pk : pkg) : list import := dedup_imports (root_imports_before_4a102aa pk).
 
 (* getNamedImports visits the pairs sorted by path, then alias *)
 Definition import_ltb (a b : import) : bool :=
   if String.eqb (i_path a) (i_path b) then String.ltb (i_alias a) (i_alias b) else String.ltb (i_path a) (i_path b).
 Definition ordered_imports (pk : pkg) : list import :=
   isort import_ltb (named_imports pk) ++ root_imports pk.
+Definition ordered_imports_before_4a102aa (pk : pkg) : list import :=
+  isort import_ltb (named_imports pk) ++ root_imports_before_4a102aa pk.
 
 (* every import goes through Package(): the first package with an internal clash ends the parse *)
 Fixpoint first_err {A} (f : A -> option err) (l : list A) : option err :=
@@ -181,8 +186,7 @@ Definition check_dupes (fixed : bool) (info_funcs : list func) (imps : list impo
 (* ---------------------------------------------------------------- PrimaryPackage *)
 Definition or_else (a b : option err) : option err := match a with Some e => Some e | None => b end.
 
-Definition mage_check (fixed : bool) (pk : pkg) : option err :=
-  let imps := ordered_imports pk in
+Definition mage_check_with (imps : list import) (fixed : bool) (pk : pkg) : option err :=
   (* Package(path, files) *)
   or_else (package_check (local_funcs pk))
   (* setImports: getImportFrom -> Package for each; before the repair checkDupes ran here, info.Aliases still nil *)
@@ -191,6 +195,10 @@ Definition mage_check (fixed : bool) (pk : pkg) : option err :=
    then (* setDefault; setAliases; checkDupes *)
         check_dupes true (local_funcs pk) imps (alias_map (aliases pk))
    else check_dupes false (local_funcs pk) imps [])).
+
+Definition mage_check (fixed : bool) (pk : pkg) : option err := mage_check_with (ordered_imports pk) fixed pk.
+(* the current checks over the imports as collected before commit 4a102aa (a bare import per spec) *)
+Definition mage_check_before_4a102aa (pk : pkg) : option err := mage_check_with (ordered_imports_before_4a102aa pk) true pk.
 
 Definition mage_accepts (pk : pkg) : bool :=
   match mage_check true pk with None => true | Some _ => false end.
@@ -229,7 +237,7 @@ Definition resolve (pk : pkg) (w : string) : option func :=
 
 (* ---------------------------------------------------------------- the property's vocabulary *)
 (* every name one can type: targets, namespace targets, imported targets (source order) and alias keys *)
-(* the imports of the package: each (path, alias) pair once, each bare-tag import as often as written *)
+(* the imports of the package: each (path, alias) pair once, each bare-tag path once *)
 Definition effective_imports (pk : pkg) : list import := named_imports pk ++ root_imports pk.
 Definition src_funcs (pk : pkg) : list func := local_funcs pk ++ flat_map import_funcs (effective_imports pk).
 Definition alias_keys (pk : pkg) : list string := map fst (alias_map (aliases pk)).
